@@ -21,8 +21,8 @@ META = {
                   'enspara.cluster.kmedoids.ctr_ids_mpi', 'enspara.cluster.hybrid.hybrid(mpi_mode=True) -> _kmedoids_pam_update with (rank, index) medoids / '
                   '_propose_new_center_amongst(mpi_mode=True)'],
     'bounds': {'quick': 'world size W in {1,2,3}; trajectory-length vectors with total N<=5 frames dealt round-robin (including ranks that own '
-                        'a single trajectory / a single frame); k<=3 centers, symbolic radius; distributed hybrid (k-centers + one PAM sweep) W=2, N<=4, k=2; reductions on local arrays of length<=3',
-               'thorough': 'W<=4, N<=6'},
+                        'a single trajectory / a single frame); k<=3 centers, symbolic radius; distributed hybrid (k-centers + one PAM sweep) W=2, k=2: every metric for N<=4, and for N=5 (lengths 3,2) the metrics in which one rank owns no member of the cluster whose medoid moves (the unconstrained N=5 job is thorough-only); reductions on local arrays of length<=3',
+               'thorough': 'W<=4, N<=6; distributed hybrid N<=5 with every metric'},
     'stubs': ['mpi4py.MPI.COMM_WORLD = SPMD simulator: ranks run one at a time and hand over only inside collectives; allgather / bcast / '
               'Bcast (in place) / allreduce(MAX|SUM) / Barrier with MPI semantics; the simulator CHECKS that all ranks issue the same '
               'sequence of collectives with the same root (else: deadlock)',
